@@ -8,6 +8,7 @@ import re
 from vlib import extract as X
 from vlib import cgen
 from vlib import eigabs
+from vlib import common
 from vlib.runner import Group
 from vlib.spec import FSpec
 
@@ -253,6 +254,34 @@ def dsqr_groups(tier, report):
     WF = "(D->m_ref_nr[q] == 1 || D->m_ref_nr[q] == 2 || D->m_ref_nr[q] == 3)"
     groups = []
     dsf = lambda xs: [DH + ":" + x for x in xs]
+    # (0) scalar kernels of the reflector computation: loop-free, full finite domain
+    h_s = r'''
+#line 1 "harness/kernels.dsqr.scalar"
+#define DOM(v) ((v) == (v) && FABS(v) <= SCALAR_MAX / (Scalar)4)
+void h(void) {
+  Scalar x1 = nondet_Scalar(), x2 = nondet_Scalar(), x3 = nondet_Scalar();
+  __CPROVER_assume(DOM(x1) && DOM(x2) && DOM(x3));
+#if CLAUSE == 1
+  Scalar r = stable_norm3(x1, x2, x3);
+  __CPROVER_assert(r == r && r >= (Scalar)0, "dsqr.stable_norm3: finite inputs give a non-negative, non-NaN norm");
+  Scalar a = FABS(x1) > FABS(x2) ? FABS(x1) : FABS(x2); a = a > FABS(x3) ? a : FABS(x3);
+  __CPROVER_assert(a < SCALAR_MIN * (Scalar)10 ? r == (Scalar)0 : (r >= a && r <= a + a), "dsqr.stable_norm3: max|x_i| <= norm <= 2 max|x_i| (exact 0 below the underflow guard)");
+#elif CLAUSE == 2
+  DS Dv; DS *D = &Dv; D->m_n = 4; D->m_ref_u = VEC_NEW(12); D->m_ref_nr = malloc(4); __CPROVER_assume(D->m_ref_nr != NULL); D->m_near_0 = SCALAR_MIN * (Scalar)10; D->m_eps = SCALAR_EPS;
+  Index ind = nondet_Index(); __CPROVER_assume(0 <= ind && ind < 4);
+  compute_reflector3(D, x1, x2, x3, ind);
+  unsigned char nr = D->m_ref_nr[ind];
+  __CPROVER_assert(nr == ((FABS(x2) < D->m_near_0 && FABS(x3) < D->m_near_0) ? 1 : (FABS(x3) < D->m_near_0 ? 2 : 3)),
+                   "dsqr.compute_reflector: nr = 1 <=> both trailing entries negligible, 2 <=> only the third, 3 otherwise (documented meaning)");
+#endif
+  CANARY();
+}
+'''
+    sc_text = base + byname["stable_norm3"] + byname["stable_scaling"] + byname["compute_reflector3"] + h_s
+    for k, nm in ((1, "stable_norm3"), (2, "compute_reflector.nr")):
+        groups.append(Group("dsqr.scalar.%s" % nm, sc_text, "h", loop_contracts=False, solver="kissat", defines=["SCALAR_FLOAT", "CLAUSE=%d" % k], timeout=900,
+                            functions=dsf(["stable_norm3", "compute_reflector"]), expect_classes=["dsqr."], flags=["--bounds-check", "--pointer-check"],
+                            note="loop-free, full finite domain |x_i| <= MAX/4 (binary32); hypot assumed >= max|operand|"))
     # (1) update_block at every concrete (n, il, iu): the real bulge chase with all float values symbolic
     h_ub = r'''
 #line 1 "harness/kernels.dsqr.update_block"
@@ -395,6 +424,145 @@ void h(void) {
 }
 '''
     groups = []
+    # ---- copy_data: which entry of the user's matrix lands where in the packed storage, for both triangles and both
+    # storage orders.  conj() is an uninterpreted function, so the generic (complex Hermitian capable) statement is proved:
+    # packed(i, j) = A(i, j) from the lower triangle, conj(A(j, i)) from the upper one, minus the shift on the diagonal.
+    fcd = X.locate(BH, "copy_data", cls="BKLDLT")
+    cd_pre = [("ref", r"const Eigen::Ref<const typename Derived::PlainObject>& src\(mat\);", "", {"max": 1}),
+              ("rowmajor", r"Derived::PlainObject::IsRowMajor", "IS_ROWMAJOR", {"max": 3}),
+              ("lower", r"Eigen::Lower", "EIGEN_LOWER", {"max": 4}), ("upper", r"Eigen::Upper", "EIGEN_UPPER", {"min": 0, "max": 4}),
+              ("coeffRef", r"&src\.coeffRef\(", "&SRC(", {"min": 0, "max": 2}), ("coeff", r"src\.coeff\(", "SRC(", {"min": 1, "max": 4}),
+              ("data", r"m_data\.data\(\)", "m_data", {"max": 1}),
+              ("shift", r"Scalar\(shift\)", "shift", {"min": 1, "max": 3})]
+
+    def cd_calls(b, R):
+        b = R.call_rewrite("conj", r"ScalarOp<Scalar>::conj(?=\()", lambda m, a: "SCONJ(%s)" % a[0] if len(a) == 1 else None, b)
+        b = R.call_rewrite("copy", r"std::copy(?=\()",
+                           lambda m, a: "{ const Scalar *a_ = (%s), *e_ = (%s); Scalar *b_ = (%s); for (; a_ < e_; a_++, b_++) *b_ = *a_; }" % tuple(a) if len(a) == 3 else None, b)
+        return b
+    tcd, Rcd = cgen.emit(fcd, "copy_data", self_type="BKK", self_name="B", members=mem, pre_rules=cd_pre, post_fn=cd_calls,
+                         param_types={"mat": "const Scalar *", "shift": "Scalar"})
+    report["BKLDLT::copy_data"] = Rcd.fired
+    cd_types = types + r'''
+#define EIGEN_LOWER 1
+#define EIGEN_UPPER 2
+Scalar __CPROVER_uninterpreted_sconj(Scalar);
+#define SCONJ(x) __CPROVER_uninterpreted_sconj(x)
+#define SRC(r, c) mat[IS_ROWMAJOR ? (r) * NN + (c) : (r) + (c) * NN]
+#define BITSAME(a, b) (((b) != (b)) ? ((a) != (a)) : ((a) == (b) && __CPROVER_signf(a) == __CPROVER_signf(b)))
+'''
+    cd_h = r'''
+#line 1 "harness/kernels.bkldlt.copy_data"
+void h(void) {
+  BKK Bv; BKK *B = &Bv; B->m_n = NN; B->m_data = VEC_NEW(NN * (NN + 1) / 2); B->m_perm = IVEC_NEW(NN);
+  compute_pointer(B);
+  Scalar *mat = VEC_NEW(NN * NN);
+  int uplo = nondet_int(); __CPROVER_assume(uplo == EIGEN_LOWER || uplo == EIGEN_UPPER);
+  Scalar shift = nondet_Scalar();
+  Index i = nondet_Index(), j = nondet_Index(); __CPROVER_assume(0 <= j && j <= i && i < NN);
+  Scalar a_ij = SRC(i, j), a_ji = SRC(j, i);
+  copy_data(B, mat, uplo, shift);
+  Scalar want = uplo == EIGEN_LOWER ? a_ij : SCONJ(a_ji);
+  Scalar got = coeff(i, j);
+  if (i != j) __CPROVER_assert(BITSAME(got, want), "bkldlt.copy_data: packed(i, j) is A(i, j) read from the lower triangle, conj(A(j, i)) read from the upper triangle - both storage orders");
+  else __CPROVER_assert(BITSAME(got, want - shift), "bkldlt.copy_data: packed(j, j) is the diagonal entry of the requested triangle minus the shift");
+  __CPROVER_assert(SRC(i, j) == a_ij || a_ij != a_ij, "bkldlt.copy_data: the user's matrix is not modified");
+  CANARY();
+}
+'''
+    for n in ([2, 3, 4] if tier == "quick" else [2, 3, 4, 5, 6]):
+        for rm in (0, 1):
+            groups.append(Group("bkldlt.copy_data.n%d.%s" % (n, "rowmajor" if rm else "colmajor"), cd_types + parts[0] + tcd + cd_h, "h", loop_contracts=False, solver="cadical",
+                                defines=["SCALAR_FLOAT", "NN=%d" % n, "IS_ROWMAJOR=%d" % rm], unwind=n * (n + 1) // 2 + 3, timeout=600, mem_gb=8,
+                                bounded="n = %d (concrete), full unwinding with unwinding assertions" % n,
+                                functions=[BH + ":copy_data", BH + ":compute_pointer"], expect_classes=["bkldlt.copy_data"],
+                                note="conj() uninterpreted (generic scalar); uplo symbolic; the lower/upper agreement of C10 follows for A(i, j) = conj(A(j, i))"))
+    # ---- gaussian_elimination_1x1 / _2x2: the exact-singularity decision and the extent of every trailing update.
+    # Mapped-vector statements lose their values (range checked against the column they address, then havocked).
+    ge_types = types + common.enum_defines("Util/CompInfo.h", "CompInfo") + r'''
+#define BITSAME(a, b) (((b) != (b)) ? ((a) != (a)) : ((a) == (b) && __CPROVER_signf(a) == __CPROVER_signf(b)))
+/* a mapped vector [p, p + len) must lie inside ONE packed column (column c holds rows c..n-1) */
+static void MAPVEC_RANGE(BKK *B, Scalar *p, Index len, _Bool write)
+{
+  __CPROVER_assert(len >= 0, "Eigen: mapped vector length >= 0");
+  if (len == 0) return;
+  _Bool found = 0;
+  for (Index c = 0; c < NN; c++)
+    if (__CPROVER_same_object(p, B->m_data) && B->m_colptr[c] <= p && p < B->m_colptr[c] + (NN - c)) {
+      found = 1;
+      __CPROVER_assert((p - B->m_colptr[c]) + len <= NN - c, "packed storage: a mapped vector stays inside the column it starts in");
+    }
+  __CPROVER_assert(found, "packed storage: a mapped vector of positive length starts inside a column");
+  if (write) for (Index t = 0; t < len; t++) p[t] = nondet_Scalar();
+}
+#define TAIL_CHECK(len, m) __CPROVER_assert(0 <= (m) && (m) <= (len), "Eigen block assertion: tail(m) within the vector")
+/* the two products of the 2x2 determinant test: an uninterpreted function on both sides (same arithmetic in code and contract) */
+Scalar __CPROVER_uninterpreted_fmulk(Scalar, Scalar);
+#define FMULK(a, b) __CPROVER_uninterpreted_fmulk(a, b)
+'''
+    ge_common = [("real", r"ScalarOp<Scalar>::real\(([^()]*(?:\([^()]*\))?)\)", r"(\1)", {"min": 1, "max": 3})]
+    f1 = X.locate(BH, "gaussian_elimination_1x1", cls="BKLDLT")
+    t1, R1 = cgen.emit(f1, "gaussian_elimination_1x1", ret_c="CompInfo", self_type="BKK", self_name="B", members=mem, post_fn=std_calls,
+                       pre_rules=common_pre + ge_common + [
+                           ("mapl", r"MapVec l\(lptr, ldim\);", "MAPVEC_RANGE(B, lptr, ldim, 0);", {"max": 1}),
+                           ("upd", r"MapVec\(col_pointer\(j \+ k \+ 1\), ldim - j\)\.noalias\(\) -= \(l_conj / akk\) \* l\.tail\(ldim - j\);",
+                            "{ TAIL_CHECK(ldim, ldim - j); MAPVEC_RANGE(B, col_pointer(j + k + 1), ldim - j, 1); (void)l_conj; }", {"max": 1}),
+                           ("scale", r"l /= akk;", "MAPVEC_RANGE(B, lptr, ldim, 1);", {"max": 1})])
+    report["BKLDLT::gaussian_elimination_1x1"] = R1.fired
+    f2 = X.locate(BH, "gaussian_elimination_2x2", cls="BKLDLT")
+    t2, R2 = cgen.emit(f2, "gaussian_elimination_2x2", ret_c="CompInfo", self_type="BKK", self_name="B", members=mem, post_fn=std_calls,
+                       pre_rules=common_pre + [
+                           ("refs", r"Scalar& e11 = diag_coeff\(k\);\s*Scalar& e21 = coeff\(k \+ 1, k\);\s*Scalar& e22 = diag_coeff\(k \+ 1\);",
+                            "Scalar *verif_e11 = &diag_coeff(k); Scalar *verif_e21 = &coeff(k + 1, k); Scalar *verif_e22 = &diag_coeff(k + 1);", {"max": 1}),
+                           ("real11", r"e11 = ScalarOp<Scalar>::real\(e11\);", "(*verif_e11) = (*verif_e11);", {"max": 1}),
+                           ("real22", r"e22 = ScalarOp<Scalar>::real\(e22\);", "(*verif_e22) = (*verif_e22);", {"max": 1}),
+                           ("e12", r"Scalar e12 = ScalarOp<Scalar>::conj\(e21\);", "Scalar e12 = (*verif_e21);", {"max": 1}),
+                           ("det", r"if \(e11 \* e22 - e12 \* e21 == Scalar\(0\)\)", "if (FMULK((*verif_e11), (*verif_e22)) - FMULK(e12, (*verif_e21)) == (Scalar)0)", {"max": 1}),
+                           ("maps", r"MapVec l1\(l1ptr, ldim\), l2\(l2ptr, ldim\);", "MAPVEC_RANGE(B, l1ptr, ldim, 0); MAPVEC_RANGE(B, l2ptr, ldim, 0);", {"max": 1}),
+                           ("X", r"Eigen::Matrix<Scalar, Eigen::Dynamic, 2> X\(ldim, 2\);", "__CPROVER_assert(ldim >= 0, @Q@Eigen: matrix dims >= 0@Q@);", {"max": 1}),
+                           ("solve", r"solve_left_2x2\(e11, e21, e22, l1, l2, X\);", "/* value kernel solve_left_2x2: operands l1, l2 (ldim) and X (ldim x 2) conform by construction */;", {"max": 1}),
+                           ("upd", r"MapVec\(col_pointer\(j \+ k \+ 2\), ldim - j\)\.noalias\(\) -= \(X\.col\(0\)\.tail\(ldim - j\) \* l1j_conj \+ X\.col\(1\)\.tail\(ldim - j\) \* l2j_conj\);",
+                            "{ TAIL_CHECK(ldim, ldim - j); MAPVEC_RANGE(B, col_pointer(j + k + 2), ldim - j, 1); (void)l1j_conj; (void)l2j_conj; }", {"max": 1}),
+                           ("l1", r"l1\.noalias\(\) = X\.col\(0\);", "MAPVEC_RANGE(B, l1ptr, ldim, 1);", {"max": 1}),
+                           ("l2", r"l2\.noalias\(\) = X\.col\(1\);", "MAPVEC_RANGE(B, l2ptr, ldim, 1);", {"max": 1})])
+    report["BKLDLT::gaussian_elimination_2x2"] = R2.fired
+    ge_h = r'''
+#line 1 "harness/kernels.bkldlt.ge"
+void h(void) {
+  BKK Bv; BKK *B = &Bv; B->m_n = NN; B->m_data = VEC_NEW(NN * (NN + 1) / 2); B->m_perm = IVEC_NEW(NN);
+  compute_pointer(B);
+  Index k = nondet_Index();
+  Index i = nondet_Index(), j = nondet_Index(); __CPROVER_assume(0 <= j && j <= i && i < NN);
+  Scalar old_ij = coeff(i, j);
+#if WHICH == 1
+  __CPROVER_assume(0 <= k && k < NN);
+  Scalar piv = diag_coeff(k);
+  CompInfo r = gaussian_elimination_1x1(B, k);
+  __CPROVER_assert((r == CompInfo_NumericalIssue) == (piv == (Scalar)0) && (r == CompInfo_NumericalIssue || r == CompInfo_Successful),
+                   "bkldlt.ge1x1: NumericalIssue is returned exactly when the 1x1 pivot is exactly zero, Successful otherwise");
+  __CPROVER_assert(BITSAME(diag_coeff(k), piv), "bkldlt.ge1x1: the pivot itself is stored unchanged (D holds the pivot, not its inverse)");
+  if (r == CompInfo_NumericalIssue) __CPROVER_assert(BITSAME(coeff(i, j), old_ij), "bkldlt.ge1x1: on a singular pivot nothing is overwritten");
+  if (j < k) __CPROVER_assert(BITSAME(coeff(i, j), old_ij), "bkldlt.ge1x1: columns already factorized (j < k) are not touched");
+#else
+  __CPROVER_assume(0 <= k && k < NN - 1);
+  Scalar e11 = diag_coeff(k), e21 = coeff(k + 1, k), e22 = diag_coeff(k + 1);
+  CompInfo r = gaussian_elimination_2x2(B, k);
+  __CPROVER_assert((r == CompInfo_NumericalIssue) == (FMULK(e11, e22) - FMULK(e21, e21) == (Scalar)0) && (r == CompInfo_NumericalIssue || r == CompInfo_Successful),
+                   "bkldlt.ge2x2: NumericalIssue is returned exactly when the 2x2 pivot block has an exactly zero determinant, Successful otherwise");
+  __CPROVER_assert(BITSAME(diag_coeff(k), e11) && BITSAME(coeff(k + 1, k), e21) && BITSAME(diag_coeff(k + 1), e22), "bkldlt.ge2x2: the pivot block itself is stored unchanged");
+  if (r == CompInfo_NumericalIssue) __CPROVER_assert(BITSAME(coeff(i, j), old_ij), "bkldlt.ge2x2: on a singular pivot block nothing is overwritten");
+  if (j < k) __CPROVER_assert(BITSAME(coeff(i, j), old_ij), "bkldlt.ge2x2: columns already factorized (j < k) are not touched");
+#endif
+  CANARY();
+}
+'''
+    for n in ([2, 3, 4] if tier == "quick" else [2, 3, 4, 5, 6]):
+        for w, t in ((1, t1), (2, t2)):
+            groups.append(Group("bkldlt.ge%dx%d.n%d" % (w, w, n), ge_types + parts[0] + t + ge_h, "h", loop_contracts=False, solver="cadical",
+                                defines=["SCALAR_FLOAT", "NN=%d" % n, "WHICH=%d" % w], unwind=n * (n + 1) // 2 + 3, timeout=900, mem_gb=10,
+                                bounded="n = %d (concrete), k symbolic; full unwinding with unwinding assertions" % n,
+                                functions=[BH + ":gaussian_elimination_%dx%d" % (w, w)], expect_classes=["bkldlt.ge%dx%d" % (w, w)],
+                                note="real scalar instantiation; the singularity decision is loop-free; mapped-vector updates lose values, keep extents; solve_left_2x2 values not under contract"))
     for n in ([2, 3, 4] if tier == "quick" else [2, 3, 4, 5, 6]):
         groups.append(Group("bkldlt.kernels.n%d" % n, types + "".join(parts) + harness, "h", loop_contracts=False, solver="cadical", defines=["SCALAR_FLOAT", "NN=%d" % n], unwind=n * (n + 1) // 2 + 3,
                             timeout=900, mem_gb=12, bounded="n = %d (concrete), full unwinding with unwinding assertions" % n,
